@@ -832,6 +832,10 @@ class PE:
             k = show(idx)
             if k in v.entries:
                 return v.entries[k][1]
+        if isinstance(v, (Tup, Lst)) and not getattr(v, "open", False) and isinstance(e, ast.Subscript) and isinstance(e.slice, ast.Slice) \
+                and isinstance(idx, Tup) and len(idx.items) == 3 and all(isinstance(i, Const) and (i.v is None or isinstance(i.v, int)) for i in idx.items):
+            items = v.items[slice(*[i.v for i in idx.items])]
+            return Tup(items) if isinstance(v, Tup) else Lst(items)
         if isinstance(v, Const) and isinstance(v.v, (str, tuple)) and isinstance(idx, Const) and isinstance(idx.v, int):
             try:
                 return Const(v.v[idx.v])
